@@ -37,7 +37,7 @@ ASSUMPTIONS = ["zero interest rate (interest is C06) so that the ledger knows th
                "ending in Broker.net_liquidation_value while the account is insolvent"]
 REQUIRED = ["C09:interest-ruin-reached", "C09:nonraising-valuation-is-current", "C09:insolvent-decision-trades-nothing", "C09:valuation-raises-iff-nonpositive", "C09:refused-after-end",
             "C09:reset-reenables", "C09:control-stays-solvent", "C09:exact-zero-is-insolvent"]
-REQUIRED_CATS = ["second-episode-on-same-environment", "short-valued-at-zero-quote-before-rally", "scenario:interest-ruin", "broker-level:insolvent", "ruin:latent", "ruin:nonlatent", "severity:exact-zero", "severity:below", "severity:far-below", "severity:control",
+REQUIRED_CATS = ["a-decision-refused-earlier-in-the-episode", "second-episode-on-same-environment", "short-valued-at-zero-quote-before-rally", "scenario:interest-ruin", "broker-level:insolvent", "ruin:latent", "ruin:nonlatent", "severity:exact-zero", "severity:below", "severity:far-below", "severity:control",
                  "first-step", "later-step", "spot-long", "spot-short", "margined"]
 REQUIRED_HITS = ["Broker.transact", "Broker.rebalance", "Broker.net_liquidation_value"]
 TECHNIQUE = "runtime monitoring with fault injection: ruining price paths at every position of a step; ledger replay decides decision-time NLV; transact hook proves no trade"
@@ -268,8 +268,13 @@ def case(ctx, i, tier):
     tr.add_events(evs)
     sink = ep.Sink()
     lo, hi = (-(abs(w) + 1.0), abs(w) + 1.0) if kind == "margined" else (-3.0, 5.0)
-    env = TradingEnv(action_space=BoxPortfolio([c], lo, hi), transmitter=tr, state=ep.Rec(sink), reward=rw, latency=L,
+    ghost = rng.random() < 0.3        # one more contract in the space that is never quoted: a decision with weight on it is refused
+    space_cs = [c] + ([ETF("NEVER_QUOTED")] if ghost else [])
+    jb = rng.randint(0, max(jr - 1, 0)) if ghost else None      # a refused decision early in the episode, before the ruin
+    env = TradingEnv(action_space=BoxPortfolio(space_cs, lo, hi), transmitter=tr, state=ep.Rec(sink), reward=rw, latency=L,
                      broker_fees=fees, initial_cash=cash0)
+    if ghost:
+        ctx.cat("a-decision-refused-earlier-in-the-episode")
     sink.env = env
     ctx.cat(kind, "ruin:" + where, "severity:" + severity, "first-step" if jr == 0 else "later-step",
             "reward:" + type(rw).__name__)
@@ -325,7 +330,15 @@ def case(ctx, i, tier):
             k = 0
             calls_after_end = 0
             while k < n + 3 and calls_after_end < 2:
-                a = np.array([w if k >= jo else 0.0])
+                a = np.array([w if k >= jo else 0.0] + ([0.0] if ghost else []))
+                if ghost and k == jb and episode_nr == 0 and not ended and not became_insolvent:
+                    # refused while its trades are computed (weight on the unquoted contract); the caller catches the
+                    # error and decides again - the episode and every later valuation behave as if it had not happened
+                    try:
+                        env.step(np.array([a[0], 0.2]))
+                    except Exception:
+                        pass
+                    consume()
                 h0 = env.broker.holdings_quantity
                 n0 = len(env.broker.track_record)
                 tx0 = mon.n_transact
@@ -390,7 +403,7 @@ def case(ctx, i, tier):
         pos[0] = 0
         env.reset()
         try:
-            o, r, d, info = env.step(np.array([0.0]))
+            o, r, d, info = env.step(np.array([0.0] + ([0.0] if ghost else [])))
             ctx.check("C09:reset-reenables", True)
         except BaseException as e:  # noqa
             ctx.violation("C09:reset-reenables", error=repr(e)[:200])
